@@ -57,6 +57,7 @@ Qed.
 (** * Safety: a covered client never raises an error against a conformant peer *)
 
 Definition static_ok (e : env) : Prop :=
+  (forall k, lim_of (e_adv e) k <= lim_of (e_enf e) k) /\
   dgram_cap (e_adv e) <= l_dgram (e_enf e) /\
   (if adv_idle_fin (l_idle (e_adv e)) then l_idle (e_adv e) <= l_idle (e_enf e) else noIdleNs <= l_idle (e_enf e)).
 
@@ -64,7 +65,7 @@ Lemma step_safe e s x :
   inv s -> static_ok e -> peer_ok e s x = true ->
   exists s', client_step e s x = (s', None) /\ inv s'.
 Proof.
-  intros I (Hd & Hi) P. destruct x as [ty n | ty n | n | k | len | k w | | d pidle pto3]; simpl in P |- *.
+  intros I (Hl & Hd & Hi) P. destruct x as [ty n | ty n | n | k | ty m n | len | k w | | d pidle pto3]; simpl in P |- *.
   - (* EvData *)
     apply andb_prop in P as [P Pc]. apply andb_prop in P as [P Ps]. apply andb_prop in P as [Pn Po].
     assert (Ho : (ty =? 0) || fits_client s (cnt_kind ty) (implicit_open s ty) = true).
@@ -91,6 +92,13 @@ Proof.
   - (* EvCIDRotate *)
     apply andb_prop in P as [_ P]. rewrite (fits_peer_client _ _ _ I P). simpl.
     eexists. split; [reflexivity|]. apply inv_bump. exact I.
+  - (* EvFresh *)
+    apply andb_prop in P as [P Pc]. apply andb_prop in P as [P Pn]. apply andb_prop in P as [P Ps].
+    rewrite (fits_peer_client _ _ _ I Ps). cbn [negb].
+    apply Z.leb_le in Pn. specialize (Hl (sd_kind (if ty =? 1 then 1 else 2))).
+    destruct (Z.ltb_spec (lim_of (e_enf e) (sd_kind (if ty =? 1 then 1 else 2))) n); [lia|].
+    rewrite (fits_peer_client _ _ _ I Pc). cbn [negb].
+    eexists. split; [reflexivity|]. apply inv_bump, inv_bump. exact I.
   - (* EvDgram *)
     apply andb_prop in P as [P1 P2]. apply Z.leb_le in P1, P2.
     destruct (Z.eqb_spec (l_dgram (e_enf e)) 0) as [E|E]; [lia|].
@@ -125,7 +133,7 @@ Qed.
 Lemma covers_safe adv enf : covers adv enf -> forall h c, play adv enf h <> Err c.
 Proof.
   intros C h c. unfold play. apply run_safe.
-  - unfold static_ok. simpl. unfold covers in C. tauto.
+  - unfold static_ok. simpl. split; [apply covers_counters, C|]. unfold covers in C. tauto.
   - apply inv_init, covers_counters, C.
 Qed.
 
@@ -449,7 +457,7 @@ Proof.
   intros H k.
   assert (B : forall (t : state) k0 n, rw (bump t k0 n k) = rw (t k) /\ cr (bump t k0 n k) = cr (t k)).
   { intros t k0 n. unfold bump, upd. destruct (kind_eqb k0 k) eqn:E; [apply kind_eqb_eq in E; subst|]; simpl; auto. }
-  destruct x as [ty n | ty n | n | j | len | k0 w | | d pidle pto3]; cbn [client_step] in H.
+  destruct x as [ty n | ty n | n | j | ty m n | len | k0 w | | d pidle pto3]; cbn [client_step] in H.
   - right. split; [discriminate|].
     destruct ((ty =? 0) || fits_client s (cnt_kind ty) (implicit_open s ty)); cbn [negb orb] in H; [|inversion H; subst; auto].
     set (t := if ty =? 0 then s else bump s (cnt_kind ty) (implicit_open s ty)) in *.
@@ -462,6 +470,12 @@ Proof.
   - right. split; [discriminate|]. destruct (fits_client s (cnt_kind ty) n); cbn [negb orb] in H; inversion H; subst; auto; try apply B.
   - right. split; [discriminate|]. destruct (fits_client s KCID n); cbn [negb orb] in H; inversion H; subst; auto; try apply B.
   - right. split; [discriminate|]. destruct (fits_client s KCID (1 - j)); cbn [negb orb] in H; inversion H; subst; auto; try apply B.
+  - right. split; [discriminate|].
+    destruct (fits_client s (cnt_kind ty) m); cbn [negb orb] in H; [|inversion H; subst; auto].
+    destruct (lim_of (e_enf e) (sd_kind (if ty =? 1 then 1 else 2)) <? n); [inversion H; subst; auto|].
+    destruct (fits_client s KConn (m * n)); cbn [negb orb] in H; inversion H; subst; auto.
+    destruct (B (bump s (cnt_kind ty) m) KConn (m * n)) as [B1 B2]. destruct (B s (cnt_kind ty) m) as [B3 B4].
+    split; congruence.
   - right. split; [discriminate|].
     destruct (l_dgram (e_enf e) =? 0); [inversion H; subst; auto|].
     destruct (len >? l_dgram (e_enf e)); inversion H; subst; auto.
@@ -497,7 +511,7 @@ Proof.
     destruct IH as [-> ->].
     destruct (client_step_windows _ _ _ _ _ C k) as [(w & -> & Hr & Hc) | (N & Hr & Hc)].
     + rewrite kind_eqb_refl. simpl in G. apply Z.ltb_lt in G. specialize (I k). split; lia.
-    + destruct x as [? ? | ? ? | ? | ? | ? | k0 w | | ? ? ?]; auto.
+    + destruct x as [? ? | ? ? | ? | ? | ? ? ? | ? | k0 w | | ? ? ?]; auto.
       destruct (kind_eqb k0 k) eqn:E; [|auto]. apply kind_eqb_eq in E. subst. exfalso. exact (N w eq_refl).
 Qed.
 
